@@ -1,6 +1,6 @@
 (* Conc/Oracle_proofs.v — proofs of the statements of Conc/OracleSpec.v. *)
 From Coq Require Import List NArith Arith Bool Lia.
-From SKV Require Import Params Base.Lex Conc.Oracle Conc.CommitSeq Conc.OracleSpec.
+From SKV Require Import Params Base.Lex Conc.Oracle Conc.CommitSeq Conc.CommitSeqOld Conc.OracleSpec.
 Import ListNotations.
 Local Open Scope N_scope.
 Arguments N.add : simpl never.
@@ -31,6 +31,17 @@ Lemma cmp_pub_same a b : ORACLE_PUBLISH_SAME_CMP a b = N.eqb a b.
 Proof. apply params_ok. Qed.
 Lemma first_seq : COMMIT_FIRST_SEQ = 1.
 Proof. apply params_ok. Qed.
+Lemma cmp_epoch a b : ORACLE_EPOCH_CMP a b = negb (N.eqb a b).
+Proof. apply params_ok. Qed.
+(* the epoch test at the head of the critical section *)
+Lemma epoch_test_false s t :
+  (match t_epoch t with Some e => ORACLE_EPOCH_CMP e (c_epoch s) | None => false end) = false <-> epoch_current s t.
+Proof.
+  unfold epoch_current. destruct (t_epoch t) as [e|]; [|tauto]. rewrite cmp_epoch.
+  destruct (N.eqb e (c_epoch s)) eqn:E; cbn [negb].
+  - apply N.eqb_eq in E. tauto.
+  - apply N.eqb_neq in E. split; [discriminate|contradiction].
+Qed.
 
 (* ---------- the association list ---------- *)
 Definition fm_wf (m : fmap) : Prop := NoDup (map fst m).
@@ -491,6 +502,7 @@ Record winv (s : cstate) : Prop := {
   w_reg : watermark_ok s;
   w_kept : kept_since (c_orc s) <= c_visible s;
   w_start : forall id t, tx_get id (c_txs s) = Some t -> t_start t <= c_visible s;
+  w_epoch : forall id t, tx_get id (c_txs s) = Some t -> epoch_current s t;
 }.
 Definition regopen (s : cstate) : Prop :=
   forall id t, tx_get id (c_txs s) = Some t -> t_reg t = true -> t_closed t = false.
@@ -498,7 +510,7 @@ Definition regopen (s : cstate) : Prop :=
 Lemma inv_c0 : inv c0.
 Proof. split; cbn; [constructor|intros m ks k []|intros m ks []|intros f v H; discriminate]. Qed.
 Lemma winv_c0 : winv c0.
-Proof. split; cbn; [intros id t H; discriminate|lia|intros id t H; discriminate]. Qed.
+Proof. split; cbn; [intros id t H; discriminate|lia|intros id t H; discriminate|intros id t H; discriminate]. Qed.
 Lemma regopen_c0 : regopen c0.
 Proof. intros id t H. discriminate. Qed.
 
@@ -506,18 +518,20 @@ Proof. intros id t H. discriminate. Qed.
 Inductive shape (s : cstate) (c : cstep) : cstate -> outcome -> Prop :=
 | ShSame o : shape s c s o
 | ShTxs txs o : shape s c
-    {| c_txs := txs; c_visible := c_visible s; c_next := c_next s; c_orc := c_orc s; c_done := c_done s |} o
+    {| c_txs := txs; c_visible := c_visible s; c_next := c_next s; c_orc := c_orc s; c_done := c_done s; c_epoch := c_epoch s |} o
 | ShOk id t keys :
     c = SCommit id keys false -> tx_get id (c_txs s) = Some t -> t_closed t = false -> keys <> [] ->
+    epoch_current s t ->
     check fp (c_orc s) keys (t_start t) = VOk ->
     shape s c
-      {| c_txs := tx_set id {| t_start := t_start t; t_reg := false; t_snap := t_snap t; t_closed := true |} (c_txs s);
+      {| c_txs := tx_set id {| t_start := t_start t; t_reg := false; t_snap := t_snap t; t_closed := true; t_epoch := t_epoch t |} (c_txs s);
          c_visible := N.max (c_visible s) (stamp_of (c_next s) (N.of_nat (length keys)));
          c_next := c_next s + N.of_nat (length keys);
          c_orc := publish fp G (c_orc s) keys (c_next s) (N.of_nat (length keys)) (N.min (oldest_active s) (t_start t));
-         c_done := (stamp_of (c_next s) (N.of_nat (length keys)), keys) :: c_done s |} OOk
+         c_done := (stamp_of (c_next s) (N.of_nat (length keys)), keys) :: c_done s; c_epoch := c_epoch s |} OOk
 | ShFail id t keys :
     c = SCommit id keys true -> tx_get id (c_txs s) = Some t -> t_closed t = false -> keys <> [] ->
+    epoch_current s t ->
     check fp (c_orc s) keys (t_start t) = VOk ->
     shape s c
       {| c_txs := c_txs s;
@@ -525,7 +539,7 @@ Inductive shape (s : cstate) (c : cstep) : cstate -> outcome -> Prop :=
          c_next := c_next s + N.of_nat (length keys);
          c_orc := rollback fp (publish fp G (c_orc s) keys (c_next s) (N.of_nat (length keys)) (N.min (oldest_active s) (t_start t)))
                            keys (stamp_of (c_next s) (N.of_nat (length keys)));
-         c_done := c_done s |} OFailed
+         c_done := c_done s; c_epoch := c_epoch s |} OFailed
 | ShRestore max :
     c = SRestore max ->
     shape s c
@@ -533,7 +547,7 @@ Inductive shape (s : cstate) (c : cstep) : cstate -> outcome -> Prop :=
          c_visible := if N.ltb 0 max then max else c_visible s;
          c_next := if N.ltb 0 max then max + 1 else c_next s;
          c_orc := reset_for_restore (c_orc s) max;
-         c_done := filter (fun e => N.leb (fst e) max) (c_done s) |} OOk.
+         c_done := filter (fun e => N.leb (fst e) max) (c_done s); c_epoch := c_epoch s + 1 |} OOk.
 
 Lemma step_shape s c : shape s c (step_state fp G s c) (step_outcome fp G s c).
 Proof.
@@ -543,7 +557,9 @@ Proof.
   - destruct (tx_get id (c_txs s)) as [t|] eqn:Et; cbn [fst snd]; [|apply ShSame].
     destruct (t_closed t) eqn:Ec; cbn [fst snd]; [apply ShSame|].
     destruct keys as [|k0 kr]; cbn [fst snd]; [apply ShTxs|].
-    unfold commit_core. destruct (check fp (c_orc s) (k0 :: kr) (t_start t)) eqn:Ech; cbn [fst snd]; try apply ShSame.
+    unfold commit_core. destruct (match t_epoch t with Some e => ORACLE_EPOCH_CMP e (c_epoch s) | None => false end) eqn:Egd; cbn [fst snd]; [apply ShSame|].
+    apply epoch_test_false in Egd.
+    destruct (check fp (c_orc s) (k0 :: kr) (t_start t)) eqn:Ech; cbn [fst snd]; try apply ShSame.
     destruct fail; cbn [fst snd].
     + eapply ShFail; eauto. congruence.
     + eapply ShOk; eauto. congruence.
@@ -560,7 +576,7 @@ Qed.
 Lemma inv_step s c : inv s -> inv (step_state fp G s c).
 Proof.
   intros Hi. pose proof (inv_below s Hi) as Hb. destruct Hi as [Hwf Hs Hn Hj].
-  destruct (step_shape s c) as [o|txs o|id t keys Hc Hg Hcl Hne Hch|id t keys Hc Hg Hcl Hne Hch|max Hc].
+  destruct (step_shape s c) as [o|txs o|id t keys Hc Hg Hcl Hne Hgd Hch|id t keys Hc Hg Hcl Hne Hgd Hch|max Hc].
   - split; assumption.
   - split; cbn; assumption.
   - pose proof (count_pos keys Hne) as Hcp. destruct (stamp_ge (c_next s) _ Hcp) as [Hs1 Hs2].
@@ -594,34 +610,44 @@ Proof. reflexivity. Qed.
 
 Lemma winv_step s c : winv s -> is_restore c = false -> winv (step_state fp G s c).
 Proof.
-  intros [Hr Hk Hst] Hnr. unfold step_state. destruct c as [id m|id|id keys fail|max]; cbn [cs_step]; [| | |discriminate].
+  intros [Hr Hk Hst Hep] Hnr. unfold step_state. destruct c as [id m|id|id keys fail|max]; cbn [cs_step]; [| | |discriminate].
   - destruct (tx_get id (c_txs s)) eqn:Eg; cbn [fst]; [split; assumption|].
-    split; cbn [c_txs c_orc c_visible]; [|exact Hk|].
+    split; cbn [c_txs c_orc c_visible]; [|exact Hk| |].
     + intros id' t'. cbn [c_txs c_orc c_visible]. rewrite tx_get_set. destruct (N.eqb id id').
       * intros H _. inversion H. cbn [t_start]. exact Hk.
       * apply Hr.
-    + intros id' t'. cbn [c_txs c_orc c_visible]. rewrite tx_get_set. destruct (N.eqb id id').
+    + intros id' t'. rewrite tx_get_set. destruct (N.eqb id id').
       * intros H. inversion H. cbn [t_start]. lia.
       * apply Hst.
+    + intros id' t'. rewrite tx_get_set. destruct (N.eqb id id').
+      * intros H. inversion H. unfold epoch_current. cbn [t_epoch c_epoch]. destruct m; reflexivity || exact I.
+      * intros H. apply (Hep id' t' H).
   - destruct (tx_get id (c_txs s)) as [t|] eqn:Eg; cbn [fst]; [|split; assumption].
-    split; cbn [c_txs c_orc c_visible]; [|exact Hk|].
+    split; cbn [c_txs c_orc c_visible]; [|exact Hk| |].
     + intros id' t'. cbn [c_txs c_orc c_visible]. rewrite tx_get_set. destruct (N.eqb id id').
       * intros H Hreg. inversion H. subst t'. discriminate.
       * apply Hr.
-    + intros id' t'. cbn [c_txs c_orc c_visible]. rewrite tx_get_set. destruct (N.eqb id id') eqn:E.
+    + intros id' t'. rewrite tx_get_set. destruct (N.eqb id id') eqn:E.
       * intros H. inversion H. cbn [t_start]. apply (Hst id). exact Eg.
       * apply Hst.
+    + intros id' t'. rewrite tx_get_set. destruct (N.eqb id id') eqn:E.
+      * intros H. inversion H. apply (Hep id t Eg).
+      * intros H. apply (Hep id' t' H).
   - destruct (tx_get id (c_txs s)) as [t|] eqn:Eg; cbn [fst]; [|split; assumption].
     destruct (t_closed t); cbn [fst]; [split; assumption|].
     destruct keys as [|k0 kr]; cbn [fst].
-    + split; cbn [c_txs c_orc c_visible]; [|exact Hk|].
+    + split; cbn [c_txs c_orc c_visible]; [|exact Hk| |].
       * intros id' t'. cbn [c_txs c_orc c_visible]. rewrite tx_get_set. destruct (N.eqb id id').
         -- intros H Hreg. inversion H. subst t'. discriminate.
         -- apply Hr.
-      * intros id' t'. cbn [c_txs c_orc c_visible]. rewrite tx_get_set. destruct (N.eqb id id').
+      * intros id' t'. rewrite tx_get_set. destruct (N.eqb id id').
         -- intros H. inversion H. cbn [t_start]. apply (Hst id). exact Eg.
         -- apply Hst.
-    + unfold commit_core. destruct (check fp (c_orc s) (k0 :: kr) (t_start t)) eqn:Ech; cbn [fst]; try (split; assumption).
+      * intros id' t'. rewrite tx_get_set. destruct (N.eqb id id').
+        -- intros H. inversion H. apply (Hep id t Eg).
+        -- intros H. apply (Hep id' t' H).
+    + unfold commit_core. destruct (match t_epoch t with Some e => ORACLE_EPOCH_CMP e (c_epoch s) | None => false end); cbn [fst]; [split; assumption|].
+      destruct (check fp (c_orc s) (k0 :: kr) (t_start t)) eqn:Ech; cbn [fst]; try (split; assumption).
       pose proof (Hst id t Eg) as Hstart.
       set (keys := k0 :: kr) in *. set (old := N.min (oldest_active s) (t_start t)).
       set (o1 := publish fp G (c_orc s) keys (c_next s) (N.of_nat (length keys)) old).
@@ -636,14 +662,18 @@ Proof.
         -- intros id' t'. unfold watermark_ok in *. cbn [c_txs c_orc]. rewrite Hkk. apply Hr1.
         -- lia.
         -- intros id' t' Hg'. specialize (Hst id' t' Hg'). lia.
+        -- intros id' t' Hg'. apply (Hep id' t' Hg').
       * split; cbn [c_txs c_orc c_visible].
         -- intros id' t'. cbn [c_txs c_orc c_visible]. rewrite tx_get_set. destruct (N.eqb id id').
            ++ intros H Hreg. inversion H. subst t'. discriminate.
            ++ apply Hr1.
         -- lia.
-        -- intros id' t'. cbn [c_txs c_orc c_visible]. rewrite tx_get_set. destruct (N.eqb id id').
+        -- intros id' t'. rewrite tx_get_set. destruct (N.eqb id id').
            ++ intros H. inversion H. cbn [t_start]. lia.
            ++ intros Hg'. specialize (Hst id' t' Hg'). lia.
+        -- intros id' t'. rewrite tx_get_set. destruct (N.eqb id id').
+           ++ intros H. inversion H. apply (Hep id t Eg).
+           ++ intros H. apply (Hep id' t' H).
 Qed.
 
 Lemma regopen_step s c : regopen s -> regopen (step_state fp G s c).
@@ -657,7 +687,8 @@ Proof.
     destruct keys as [|k0 kr]; cbn [fst].
     + intros id' t'. cbn [c_txs c_orc c_visible]. rewrite tx_get_set.
       destruct (N.eqb id id'); [intros H Hr; inversion H; subst t'; discriminate|apply Hro].
-    + unfold commit_core. destruct (check fp (c_orc s) (k0 :: kr) (t_start t)); cbn [fst]; try exact Hro.
+    + unfold commit_core. destruct (match t_epoch t with Some e => ORACLE_EPOCH_CMP e (c_epoch s) | None => false end); cbn [fst]; [exact Hro|].
+      destruct (check fp (c_orc s) (k0 :: kr) (t_start t)); cbn [fst]; try exact Hro.
       destruct fail; cbn [fst]; [exact Hro|]. intros id' t'. cbn [c_txs c_orc c_visible]. rewrite tx_get_set.
       destruct (N.eqb id id'); [intros H Hr; inversion H; subst t'; discriminate|apply Hro].
   - cbn [fst]. exact Hro.
@@ -682,7 +713,7 @@ Proof. induction steps as [|c r IH]; intros s Hi; [exact Hi|]. cbn [run fold_lef
 Lemma done_keys_step s c m ks : In (m, ks) (c_done (step_state fp G s c)) ->
   In (m, ks) (c_done s) \/ ks = step_keys c.
 Proof.
-  destruct (step_shape s c) as [o|txs o|id t keys Hc Hg Hcl Hne Hch|id t keys Hc Hg Hcl Hne Hch|max Hc]; cbn [c_done]; auto.
+  destruct (step_shape s c) as [o|txs o|id t keys Hc Hg Hcl Hne Hgd Hch|id t keys Hc Hg Hcl Hne Hgd Hch|max Hc]; cbn [c_done]; auto.
   - intros [H|H]; [right; inversion H; subst c; subst ks; reflexivity|left; exact H].
   - intros H. apply filter_In in H. left. apply H.
 Qed.
@@ -702,13 +733,15 @@ Lemma commit_outcome s id keys fail t : tx_get id (c_txs s) = Some t ->
     if t_closed t then OClosed
     else match keys with
          | [] => OOk
-         | _ => match check fp (c_orc s) keys (t_start t) with
-                | VRetry => ORetry | VConflict => OConflict | VOk => if fail then OFailed else OOk
-                end
+         | _ => if match t_epoch t with Some e => ORACLE_EPOCH_CMP e (c_epoch s) | None => false end then ORetry
+                else match check fp (c_orc s) keys (t_start t) with
+                     | VRetry => ORetry | VConflict => OConflict | VOk => if fail then OFailed else OOk
+                     end
          end.
 Proof.
   intros Hg. unfold step_outcome. cbn [cs_step]. rewrite Hg. destruct (t_closed t); [reflexivity|].
   destruct keys as [|k0 kr]; [reflexivity|]. unfold commit_core.
+  destruct (match t_epoch t with Some e => ORACLE_EPOCH_CMP e (c_epoch s) | None => false end); [reflexivity|].
   destruct (check fp (c_orc s) (k0 :: kr) (t_start t)); try reflexivity. destruct fail; reflexivity.
 Qed.
 
@@ -719,6 +752,7 @@ Lemma no_lost_update_from_inv s id keys fail t m ks k :
 Proof.
   intros [Hwf Hs Hn _] Hg Ho Hin Hlt Hk Hks. rewrite (commit_outcome _ _ _ _ _ Hg) in Ho.
   destruct (t_closed t); [discriminate|]. destruct keys as [|k0 kr]; [destruct Hk|].
+  destruct (match t_epoch t with Some e => ORACLE_EPOCH_CMP e (c_epoch s) | None => false end); [discriminate|].
   destruct (check fp (c_orc s) (k0 :: kr) (t_start t)) eqn:Ech; try discriminate.
   apply check_ok_inv in Ech. destruct Ech as [Hkept Hall].
   destruct (Hs m ks k Hin ltac:(lia) Hks) as [v [Hv Hmv]]. specialize (Hall k v Hk Hv). lia.
@@ -727,7 +761,7 @@ Qed.
 Theorem oracle_sound : oracle_sound_stmt fp G.
 Proof. intros steps. apply (inv_run steps c0 inv_c0). Qed.
 Theorem watermark_ok_run : watermark_ok_stmt fp G.
-Proof. intros steps Hnr. destruct (winv_run steps c0 winv_c0 Hnr) as [H1 H2 _]. split; assumption. Qed.
+Proof. intros steps Hnr. destruct (winv_run steps c0 winv_c0 Hnr) as [H1 H2 _ _]. split; assumption. Qed.
 
 Theorem no_lost_update : no_lost_update_stmt fp G.
 Proof.
@@ -736,8 +770,9 @@ Qed.
 
 Theorem no_false_conflict : no_false_conflict_stmt fp G.
 Proof.
-  intros steps id keys fail t s Hinj Hg Hcl Hkept Hnone.
+  intros steps id keys fail t s Hinj Hg Hcl Hep Hkept Hnone.
   rewrite (commit_outcome _ _ _ _ _ Hg). rewrite Hcl. destruct keys as [|k0 kr]; [reflexivity|].
+  apply epoch_test_false in Hep. rewrite Hep.
   set (keys := k0 :: kr) in *.
   assert (check fp (c_orc s) keys (t_start t) = VOk) as ->; [|reflexivity].
   apply check_ok_intro; [exact Hkept|]. intros k v Hk Hv.
@@ -754,8 +789,9 @@ Qed.
 Theorem registered_never_retry : registered_never_retry_stmt fp G.
 Proof.
   intros steps id keys fail t Hnr s Hg Hreg. rewrite (commit_outcome _ _ _ _ _ Hg).
-  destruct (winv_run steps c0 winv_c0 Hnr) as [Hr _ _]. fold s in Hr. specialize (Hr id t Hg Hreg).
-  destruct (t_closed t); [discriminate|]. destruct keys as [|k0 kr]; [discriminate|].
+  destruct (winv_run steps c0 winv_c0 Hnr) as [Hr _ _ Hep]. fold s in Hr, Hep. specialize (Hr id t Hg Hreg).
+  specialize (Hep id t Hg). apply epoch_test_false in Hep.
+  destruct (t_closed t); [discriminate|]. destruct keys as [|k0 kr]; [discriminate|]. rewrite Hep.
   destruct (check fp (c_orc s) (k0 :: kr) (t_start t)) eqn:E; try discriminate; [destruct fail; discriminate|].
   apply check_retry in E. lia.
 Qed.
@@ -765,7 +801,8 @@ Proof.
   intros steps id keys fail t Hnr s Hinj Hg Hreg Hnone.
   pose proof (no_false_conflict steps id keys fail t) as H. cbv zeta in H. apply H; try assumption.
   - apply (regopen_run steps c0 regopen_c0 id t Hg Hreg).
-  - destruct (winv_run steps c0 winv_c0 Hnr) as [Hr _ _]. apply (Hr id t Hg Hreg).
+  - destruct (winv_run steps c0 winv_c0 Hnr) as [_ _ _ Hep]. apply (Hep id t Hg).
+  - destruct (winv_run steps c0 winv_c0 Hnr) as [Hr _ _ _]. apply (Hr id t Hg Hreg).
 Qed.
 
 Theorem gc_clamp_ok : gc_clamp_ok_stmt fp G.
@@ -773,6 +810,7 @@ Proof.
   intros s id keys fail t Hg Hne Ho. rewrite (commit_outcome _ _ _ _ _ Hg) in Ho.
   unfold step_state. cbn [cs_step]. rewrite Hg. destruct (t_closed t); [destruct Ho; discriminate|].
   destruct keys as [|k0 kr]; [congruence|]. unfold commit_core.
+  destruct (match t_epoch t with Some e => ORACLE_EPOCH_CMP e (c_epoch s) | None => false end); [destruct Ho; discriminate|].
   destruct (check fp (c_orc s) (k0 :: kr) (t_start t)) eqn:E; try (destruct Ho; discriminate).
   apply check_ok_inv in E. destruct E as [Hk _].
   destruct fail; cbn [fst c_orc]; [cbn [kept_since rollback]|];
@@ -782,7 +820,7 @@ Qed.
 Lemma vinv_step s c : c_visible s < c_next s ->
   c_visible (step_state fp G s c) < c_next (step_state fp G s c).
 Proof.
-  intros H. destruct (step_shape s c) as [o|txs o|id t keys Hc Hg Hcl Hne Hch|id t keys Hc Hg Hcl Hne Hch|max Hc];
+  intros H. destruct (step_shape s c) as [o|txs o|id t keys Hc Hg Hcl Hne Hgd Hch|id t keys Hc Hg Hcl Hne Hgd Hch|max Hc];
     cbn [c_visible c_next]; try exact H.
   - pose proof (count_pos keys Hne). unfold stamp_of. lia.
   - pose proof (count_pos keys Hne). unfold stamp_of. lia.
@@ -790,13 +828,13 @@ Proof.
 Qed.
 Lemma vis_mono_step s c : is_restore c = false -> c_visible s <= c_visible (step_state fp G s c).
 Proof.
-  intros H. destruct (step_shape s c) as [o|txs o|id t keys Hc Hg Hcl Hne Hch|id t keys Hc Hg Hcl Hne Hch|max Hc];
+  intros H. destruct (step_shape s c) as [o|txs o|id t keys Hc Hg Hcl Hne Hgd Hch|id t keys Hc Hg Hcl Hne Hgd Hch|max Hc];
     cbn [c_visible]; try lia. subst c. discriminate.
 Qed.
 Lemma done_step_new s c m ks : In (m, ks) (c_done (step_state fp G s c)) ->
   In (m, ks) (c_done s) \/ c_next s <= m.
 Proof.
-  destruct (step_shape s c) as [o|txs o|id t keys Hc Hg Hcl Hne Hch|id t keys Hc Hg Hcl Hne Hch|max Hc];
+  destruct (step_shape s c) as [o|txs o|id t keys Hc Hg Hcl Hne Hgd Hch|id t keys Hc Hg Hcl Hne Hgd Hch|max Hc];
     cbn [c_done]; auto.
   - intros [H|H]; [right|left; exact H]. inversion H as [[H1 H2]]. pose proof (count_pos keys Hne) as Hcp. unfold stamp_of in *. rewrite <- H2. lia.
   - intros H. apply filter_In in H. left. apply H.
@@ -829,9 +867,349 @@ Proof.
   - destruct (tx_get id (c_txs s)) as [t|]; cbn [fst snd]; [|reflexivity].
     destruct (t_closed t); cbn [fst snd]; [reflexivity|].
     destruct keys as [|k0 kr]; cbn [fst snd]; [intros [H|[H|[H|[H|H]]]]; discriminate|].
-    unfold commit_core. destruct (check fp (c_orc s) (k0 :: kr) (t_start t)); cbn [fst snd]; try reflexivity.
+    unfold commit_core. destruct (match t_epoch t with Some e => ORACLE_EPOCH_CMP e (c_epoch s) | None => false end); cbn [fst snd]; [reflexivity|].
+    destruct (check fp (c_orc s) (k0 :: kr) (t_start t)); cbn [fst snd]; try reflexivity.
     destruct fail; cbn [fst snd]; intros [H|[H|[H|[H|H]]]]; discriminate.
   - cbn [fst snd]. intros [H|[H|[H|[H|H]]]]; discriminate.
+Qed.
+
+(* ---------- the repair of C04-N1: the restore epoch ---------- *)
+Theorem stale_epoch_refused : stale_epoch_refused_stmt fp G.
+Proof.
+  intros s id keys fail t e Hg Hcl Hne He Hdiff. cbn [cs_step]. rewrite Hg, Hcl.
+  destruct keys as [|k0 kr]; [congruence|]. unfold commit_core. rewrite He, cmp_epoch.
+  assert (N.eqb e (c_epoch s) = false) as -> by (apply N.eqb_neq; exact Hdiff). reflexivity.
+Qed.
+
+Theorem oracle_consulted_only_in_epoch : oracle_consulted_only_in_epoch_stmt fp G.
+Proof.
+  intros s id keys fail t Hg. cbn [cs_step]. rewrite Hg. destruct (t_closed t); cbn [snd]; [congruence|].
+  destruct keys as [|k0 kr]; cbn [snd]; [congruence|]. unfold commit_core.
+  destruct (match t_epoch t with Some e => ORACLE_EPOCH_CMP e (c_epoch s) | None => false end) eqn:E; cbn [snd]; [congruence|]. intros _. apply epoch_test_false. exact E.
+Qed.
+
+(* the epoch counter: +1 at a restore, unchanged otherwise *)
+Lemma epoch_step s c : c_epoch (step_state fp G s c) = if is_restore c then c_epoch s + 1 else c_epoch s.
+Proof.
+  unfold step_state. destruct c as [id m|id|id keys fail|max]; cbn [cs_step is_restore].
+  - destruct (tx_get id (c_txs s)); reflexivity.
+  - destruct (tx_get id (c_txs s)); reflexivity.
+  - destruct (tx_get id (c_txs s)) as [t|]; [|reflexivity]. destruct (t_closed t); [reflexivity|].
+    destruct keys as [|k0 kr]; [reflexivity|]. unfold commit_core. destruct (match t_epoch t with Some e => ORACLE_EPOCH_CMP e (c_epoch s) | None => false end); [reflexivity|].
+    destruct (check fp (c_orc s) (k0 :: kr) (t_start t)); try reflexivity. destruct fail; reflexivity.
+  - reflexivity.
+Qed.
+Lemma epoch_run post : forall s, c_epoch s <= c_epoch (run fp G post s) /\
+  (c_epoch (run fp G post s) = c_epoch s -> no_restore post).
+Proof.
+  induction post as [|c r IH]; intros s; [split; [cbn; lia|intros _ c []]|]. cbn [run fold_left].
+  destruct (IH (step_state fp G s c)) as [H1 H2]. fold (run fp G r (step_state fp G s c)) in *.
+  pose proof (epoch_step s c) as He. destruct (is_restore c) eqn:Er.
+  - split; [lia|]. intros H. exfalso. lia.
+  - split; [lia|]. intros H c' [Hc|Hc]; [subst c'; exact Er|]. apply H2; [lia|exact Hc].
+Qed.
+
+(* where a transaction of the next state comes from: it was there (same start, same epoch), or it
+   has just begun *)
+Lemma tx_prov_step s c id t : tx_get id (c_txs (step_state fp G s c)) = Some t ->
+  (exists t', tx_get id (c_txs s) = Some t' /\ t_epoch t' = t_epoch t /\ t_start t' = t_start t) \/
+  (tx_get id (c_txs s) = None /\ t_start t = c_visible s /\ t_closed t = false /\
+   exists m, c = SBegin id m /\ t_epoch t = match m with BUnreg => None | _ => Some (c_epoch s) end).
+Proof.
+  unfold step_state. destruct c as [i m|i|i keys fail|max]; cbn [cs_step].
+  - destruct (tx_get i (c_txs s)) eqn:Ei; cbn [fst c_txs]; [intros H; left; exists t; auto|].
+    rewrite tx_get_set. destruct (N.eqb i id) eqn:E; [|intros H; left; exists t; auto].
+    apply N.eqb_eq in E. subst i. intros H. inversion H. right. cbn [t_start t_closed t_epoch].
+    split; [exact Ei|]. split; [reflexivity|]. split; [reflexivity|]. exists m. auto.
+  - destruct (tx_get i (c_txs s)) as [u|] eqn:Ei; cbn [fst c_txs]; [|intros H; left; exists t; auto].
+    rewrite tx_get_set. destruct (N.eqb i id) eqn:E; [|intros H; left; exists t; auto]. apply N.eqb_eq in E. subst i.
+    intros H. inversion H. left. exists u. auto.
+  - destruct (tx_get i (c_txs s)) as [u|] eqn:Ei; cbn [fst c_txs]; [|intros H; left; exists t; auto].
+    destruct (t_closed u); cbn [fst]; [intros H; left; exists t; auto|].
+    destruct keys as [|k0 kr]; cbn [fst c_txs].
+    + rewrite tx_get_set. destruct (N.eqb i id) eqn:E; [|intros H; left; exists t; auto]. apply N.eqb_eq in E. subst i.
+      intros H. inversion H. left. exists u. auto.
+    + unfold commit_core. destruct (match t_epoch u with Some e => ORACLE_EPOCH_CMP e (c_epoch s) | None => false end); cbn [fst]; [intros H; left; exists t; auto|].
+      destruct (check fp (c_orc s) (k0 :: kr) (t_start u)); cbn [fst]; try (intros H; left; exists t; auto; fail).
+      destruct fail; cbn [fst c_txs]; [intros H; left; exists t; auto|].
+      rewrite tx_get_set. destruct (N.eqb i id) eqn:E; [|intros H; left; exists t; auto]. apply N.eqb_eq in E. subst i.
+      intros H. inversion H. left. exists u. auto.
+  - cbn [fst c_txs]. intros H. left. exists t. auto.
+Qed.
+(* an id keeps its start and its epoch for ever (begin refuses an id that exists) *)
+Lemma tx_stable_step s c id t : tx_get id (c_txs s) = Some t ->
+  exists t', tx_get id (c_txs (step_state fp G s c)) = Some t' /\ t_start t' = t_start t /\ t_epoch t' = t_epoch t.
+Proof.
+  intros Hg. unfold step_state. destruct c as [i m|i|i keys fail|max]; cbn [cs_step].
+  - destruct (tx_get i (c_txs s)) eqn:Ei; cbn [fst c_txs]; [exists t; auto|].
+    rewrite tx_get_set. destruct (N.eqb i id) eqn:E; [apply N.eqb_eq in E; subst i; congruence|exists t; auto].
+  - destruct (tx_get i (c_txs s)) as [u|] eqn:Ei; cbn [fst c_txs]; [|exists t; auto].
+    rewrite tx_get_set. destruct (N.eqb i id) eqn:E; [|exists t; auto]. apply N.eqb_eq in E. subst i.
+    eexists. split; [reflexivity|]. cbn [t_start t_epoch]. split; congruence.
+  - destruct (tx_get i (c_txs s)) as [u|] eqn:Ei; cbn [fst c_txs]; [|exists t; auto].
+    destruct (t_closed u); cbn [fst]; [exists t; auto|].
+    destruct keys as [|k0 kr]; cbn [fst c_txs].
+    + rewrite tx_get_set. destruct (N.eqb i id) eqn:E; [|exists t; auto]. apply N.eqb_eq in E. subst i.
+      eexists. split; [reflexivity|]. cbn [t_start t_epoch]. split; congruence.
+    + unfold commit_core. destruct (match t_epoch u with Some e => ORACLE_EPOCH_CMP e (c_epoch s) | None => false end); cbn [fst]; [exists t; auto|].
+      destruct (check fp (c_orc s) (k0 :: kr) (t_start u)); cbn [fst]; try (exists t; auto; fail).
+      destruct fail; cbn [fst c_txs]; [exists t; auto|].
+      rewrite tx_get_set. destruct (N.eqb i id) eqn:E; [|exists t; auto]. apply N.eqb_eq in E. subst i.
+      eexists. split; [reflexivity|]. cbn [t_start t_epoch]. split; congruence.
+  - cbn [fst c_txs]. exists t. auto.
+Qed.
+Lemma tx_stable_run steps : forall s id t, tx_get id (c_txs s) = Some t ->
+  exists t', tx_get id (c_txs (run fp G steps s)) = Some t' /\ t_start t' = t_start t /\ t_epoch t' = t_epoch t.
+Proof.
+  induction steps as [|c r IH]; intros s id t Hg; [exists t; auto|]. cbn [run fold_left].
+  destruct (tx_stable_step s c id t Hg) as [t1 [H1 [H2 H2']]]. destruct (IH _ _ _ H1) as [t2 [H3 [H4 H4']]].
+  exists t2. split; [exact H3|]. split; congruence.
+Qed.
+
+(* histories through the API: every transaction carries an epoch; the ones of the CURRENT epoch
+   began at or below `visible` and hold the pruning mark; the mark never passes `visible` *)
+Record einv (s : cstate) : Prop := {
+  e_le : forall id t e, tx_get id (c_txs s) = Some t -> t_epoch t = Some e -> e <= c_epoch s;
+  e_some : forall id t, tx_get id (c_txs s) = Some t -> t_epoch t <> None;
+  e_start : forall id t, tx_get id (c_txs s) = Some t -> t_epoch t = Some (c_epoch s) -> t_start t <= c_visible s;
+  e_reg : forall id t, tx_get id (c_txs s) = Some t -> t_epoch t = Some (c_epoch s) -> t_reg t = true ->
+            kept_since (c_orc s) <= t_start t;
+  e_kept : kept_since (c_orc s) <= c_visible s;
+}.
+Lemma einv_c0 : einv c0.
+Proof. split; cbn; try (intros; discriminate); try lia. Qed.
+
+(* the part of einv that does not mention the oracle, through a step that only edits c_txs *)
+Lemma einv_txs s txs :
+  einv s ->
+  (forall id t, tx_get id txs = Some t ->
+     (exists t', tx_get id (c_txs s) = Some t' /\ t_epoch t' = t_epoch t /\ t_start t' = t_start t /\ (t_reg t = true -> t_reg t' = true)) \/
+     (t_start t = c_visible s /\ t_epoch t = Some (c_epoch s))) ->
+  einv {| c_txs := txs; c_visible := c_visible s; c_next := c_next s; c_orc := c_orc s; c_done := c_done s; c_epoch := c_epoch s |}.
+Proof.
+  intros [Hle Hsome Hst Hreg Hk] Hp. split; cbn [c_txs c_visible c_orc c_epoch]; [| | | |exact Hk].
+  - intros id t e Hg He. destruct (Hp id t Hg) as [[t' [Hg' [E1 _]]]|[_ E]].
+    + apply (Hle id t' e Hg'). congruence.
+    + rewrite E in He. inversion He. lia.
+  - intros id t Hg. destruct (Hp id t Hg) as [[t' [Hg' [E1 _]]]|[_ E]].
+    + rewrite <- E1. apply (Hsome id t' Hg').
+    + rewrite E. discriminate.
+  - intros id t Hg He. destruct (Hp id t Hg) as [[t' [Hg' [E1 [E2 _]]]]|[E _]].
+    + rewrite <- E2. apply (Hst id t' Hg'). congruence.
+    + lia.
+  - intros id t Hg He Hr. destruct (Hp id t Hg) as [[t' [Hg' [E1 [E2 E3]]]]|[E _]].
+    + rewrite <- E2. apply (Hreg id t' Hg'); [congruence|auto].
+    + lia.
+Qed.
+
+Lemma einv_step s c : einv s -> (forall id, c <> SBegin id BUnreg) -> einv (step_state fp G s c).
+Proof.
+  intros Hi Hapi. unfold step_state. destruct c as [id m|id|id keys fail|max]; cbn [cs_step].
+  - destruct (tx_get id (c_txs s)) eqn:Eg; cbn [fst]; [exact Hi|]. apply einv_txs; [exact Hi|].
+    intros id' t'. rewrite tx_get_set. destruct (N.eqb id id') eqn:E.
+    + intros H. inversion H. right. cbn [t_start t_epoch]. split; [reflexivity|].
+      destruct m; try reflexivity. exfalso. apply (Hapi id). reflexivity.
+    + intros H. left. exists t'. auto.
+  - destruct (tx_get id (c_txs s)) as [t|] eqn:Eg; cbn [fst]; [|exact Hi]. apply einv_txs; [exact Hi|].
+    intros id' t'. rewrite tx_get_set. destruct (N.eqb id id') eqn:E.
+    + apply N.eqb_eq in E. subst id'. intros H. inversion H. left. exists t. cbn [t_epoch t_start t_reg].
+      repeat split; auto. discriminate.
+    + intros H. left. exists t'. auto.
+  - destruct (tx_get id (c_txs s)) as [t|] eqn:Eg; cbn [fst]; [|exact Hi].
+    destruct (t_closed t); cbn [fst]; [exact Hi|].
+    destruct keys as [|k0 kr]; cbn [fst].
+    + apply einv_txs; [exact Hi|].
+      intros id' t'. rewrite tx_get_set. destruct (N.eqb id id') eqn:E.
+      * apply N.eqb_eq in E. subst id'. intros H. inversion H. left. exists t. cbn [t_epoch t_start t_reg].
+        repeat split; auto. discriminate.
+      * intros H. left. exists t'. auto.
+    + unfold commit_core. destruct (match t_epoch t with Some e => ORACLE_EPOCH_CMP e (c_epoch s) | None => false end) eqn:Egd; cbn [fst]; [exact Hi|].
+      apply epoch_test_false in Egd.
+      destruct (check fp (c_orc s) (k0 :: kr) (t_start t)) eqn:Ech; cbn [fst]; try exact Hi.
+      destruct Hi as [Hle Hsome Hst Hreg Hk].
+      assert (t_epoch t = Some (c_epoch s)) as Hcur.
+      { unfold epoch_current in Egd. pose proof (Hsome id t Eg). destruct (t_epoch t); [congruence|congruence]. }
+      pose proof (Hst id t Eg Hcur) as Hstart.
+      set (keys := k0 :: kr) in *. set (old := N.min (oldest_active s) (t_start t)).
+      set (o1 := publish fp G (c_orc s) keys (c_next s) (N.of_nat (length keys)) old).
+      assert (kept_since o1 <= c_visible s) as Hk1 by (apply publish_kept_le; [exact Hk|unfold old; lia]).
+      assert (forall id' t', tx_get id' (c_txs s) = Some t' -> t_epoch t' = Some (c_epoch s) -> t_reg t' = true ->
+                kept_since o1 <= t_start t') as Hr1.
+      { intros id' t' Hg' He' Hreg'. apply publish_kept_le; [apply (Hreg id'); assumption|].
+        pose proof (oldest_active_le_reg s id' t' Hg' Hreg'). unfold old. lia. }
+      destruct fail; cbn [fst].
+      * split; cbn [c_txs c_orc c_visible c_epoch]; rewrite ?rollback_kept.
+        -- exact Hle.
+        -- exact Hsome.
+        -- intros id' t' Hg' He'. specialize (Hst id' t' Hg' He'). lia.
+        -- exact Hr1.
+        -- fold o1. lia.
+      * split; cbn [c_txs c_orc c_visible c_epoch].
+        -- intros id' t' e. rewrite tx_get_set. destruct (N.eqb id id').
+           ++ intros H. inversion H. cbn [t_epoch]. apply (Hle id t e Eg).
+           ++ apply Hle.
+        -- intros id' t'. rewrite tx_get_set. destruct (N.eqb id id').
+           ++ intros H. inversion H. cbn [t_epoch]. apply (Hsome id t Eg).
+           ++ apply Hsome.
+        -- intros id' t'. rewrite tx_get_set. destruct (N.eqb id id').
+           ++ intros H. inversion H. cbn [t_start t_epoch]. intros _. lia.
+           ++ intros Hg' He'. specialize (Hst id' t' Hg' He'). lia.
+        -- intros id' t'. rewrite tx_get_set. destruct (N.eqb id id').
+           ++ intros H. inversion H. cbn [t_reg]. intros _ Hf. discriminate.
+           ++ apply Hr1.
+        -- fold o1. lia.
+  - cbn [fst]. destruct Hi as [Hle Hsome Hst Hreg Hk]. split; cbn [c_txs c_orc c_visible c_epoch reset_for_restore kept_since].
+    + intros id t e Hg He. specialize (Hle id t e Hg He). lia.
+    + exact Hsome.
+    + intros id t Hg He. specialize (Hle id t _ Hg He). lia.
+    + intros id t Hg He. specialize (Hle id t _ Hg He). lia.
+    + destruct (N.ltb 0 max) eqn:E; [lia|]. apply N.ltb_ge in E. lia.
+Qed.
+Lemma api_only_cons c r : api_only (c :: r) -> (forall id, c <> SBegin id BUnreg) /\ api_only r.
+Proof.
+  intros H. split.
+  - intros id Hc. apply (H id). left. exact Hc.
+  - intros id Hin. apply (H id). right. exact Hin.
+Qed.
+Lemma einv_run steps : forall s, einv s -> api_only steps -> einv (run fp G steps s).
+Proof.
+  induction steps as [|c r IH]; intros s Hi Ha; [exact Hi|]. cbn [run fold_left].
+  destruct (api_only_cons c r Ha) as [Hc Hr]. apply IH; [apply einv_step; assumption|exact Hr].
+Qed.
+
+Theorem kept_le_visible : kept_le_visible_stmt fp G.
+Proof. intros steps Ha s. apply (e_kept _ (einv_run steps c0 einv_c0 Ha)). Qed.
+
+(* the transactions that began after s1, along a restore-free continuation, are of the current epoch *)
+Lemma fresh_current post : forall s1 s, no_restore post ->
+  c_epoch s = c_epoch s1 ->
+  (forall id t, tx_get id (c_txs s1) = None -> tx_get id (c_txs s) = Some t -> epoch_current s t) ->
+  forall id t, tx_get id (c_txs s1) = None -> tx_get id (c_txs (run fp G post s)) = Some t ->
+    epoch_current (run fp G post s) t.
+Proof.
+  induction post as [|c r IH]; intros s1 s Hnr He Hcur; [exact Hcur|]. cbn [run fold_left].
+  assert (is_restore c = false) as Hc by (apply Hnr; left; reflexivity).
+  pose proof (epoch_step s c) as Hes. rewrite Hc in Hes.
+  apply (IH s1 (step_state fp G s c)); [intros c' H; apply Hnr; right; exact H|congruence|].
+  intros id t Hnew Hg. destruct (tx_prov_step s c id t Hg) as [[t' [Hg' [E1 _]]]|[_ [_ [_ [m [_ E]]]]]].
+  - specialize (Hcur id t' Hnew Hg'). unfold epoch_current in *. rewrite <- E1, Hes. exact Hcur.
+  - unfold epoch_current. rewrite E, Hes. destruct m; reflexivity || exact I.
+Qed.
+
+Lemma api_only_app a b : api_only (a ++ b) -> api_only a /\ api_only b.
+Proof. intros H. split; intros id Hin; apply (H id); apply in_or_app; [left|right]; exact Hin. Qed.
+
+Lemma fresh_after_restore_facts pre post id t :
+  api_only (pre ++ post) -> no_restore post ->
+  let s1 := run fp G pre c0 in
+  let s := run fp G post s1 in
+  tx_get id (c_txs s1) = None -> tx_get id (c_txs s) = Some t ->
+  epoch_current s t /\ (t_reg t = true -> kept_since (c_orc s) <= t_start t).
+Proof.
+  intros Ha Hnr s1 s Hnew Hg.
+  assert (epoch_current s t) as Hep.
+  { assert (forall id' t', tx_get id' (c_txs s1) = None -> tx_get id' (c_txs s1) = Some t' -> epoch_current s1 t') as H0
+      by (intros id' t' H1 H2; congruence).
+    exact (fresh_current post s1 s1 Hnr eq_refl H0 id t Hnew Hg). }
+  split; [exact Hep|]. intros Hreg.
+  assert (einv s) as Hi.
+  { unfold s, s1. rewrite <- run_app. apply (einv_run _ c0 einv_c0 Ha). }
+  apply (e_reg _ Hi id t Hg); [|exact Hreg].
+  unfold epoch_current in Hep. pose proof (e_some _ Hi id t Hg). destruct (t_epoch t); congruence.
+Qed.
+
+Theorem registered_after_restore_never_retry : registered_after_restore_never_retry_stmt fp G.
+Proof.
+  intros pre post id keys fail t Ha Hnr s1 s Hnew Hg Hreg. rewrite (commit_outcome _ _ _ _ _ Hg).
+  destruct (fresh_after_restore_facts pre post id t Ha Hnr Hnew Hg) as [Hep Hk]. fold s1 in Hep, Hk. fold s in Hep, Hk.
+  specialize (Hk Hreg). apply epoch_test_false in Hep.
+  destruct (t_closed t); [discriminate|]. destruct keys as [|k0 kr]; [discriminate|]. rewrite Hep.
+  destruct (check fp (c_orc s) (k0 :: kr) (t_start t)) eqn:E; try discriminate; [destruct fail; discriminate|].
+  apply check_retry in E. lia.
+Qed.
+
+Theorem commit_accepted_after_restore : commit_accepted_after_restore_stmt fp G.
+Proof.
+  intros pre post id keys fail t Ha Hnr s1 s Hinj Hnew Hg Hreg Hnone.
+  assert (s = run fp G (pre ++ post) c0) as Hs by (unfold s, s1; rewrite run_app; reflexivity).
+  destruct (fresh_after_restore_facts pre post id t Ha Hnr Hnew Hg) as [Hep Hk]. fold s1 in Hep, Hk. fold s in Hep, Hk.
+  pose proof (no_false_conflict (pre ++ post) id keys fail t) as H. cbv zeta in H. rewrite <- Hs in H.
+  apply H; try assumption.
+  - rewrite Hs in Hg. apply (regopen_run (pre ++ post) c0 regopen_c0 id t Hg Hreg).
+  - apply Hk. exact Hreg.
+Qed.
+
+(* T after its begin: present, with the start and the epoch of that moment *)
+Lemma begun_tx pre id md post :
+  let s1 := run fp G pre c0 in
+  tx_get id (c_txs s1) = None ->
+  exists t, tx_get id (c_txs (run fp G (pre ++ SBegin id md :: post) c0)) = Some t /\
+            t_start t = c_visible s1 /\
+            t_epoch t = match md with BUnreg => None | _ => Some (c_epoch s1) end.
+Proof.
+  intros s1 Hnew. rewrite run_app. cbn [run fold_left]. fold s1. fold (run fp G post (step_state fp G s1 (SBegin id md))).
+  assert (exists t0, tx_get id (c_txs (step_state fp G s1 (SBegin id md))) = Some t0 /\ t_start t0 = c_visible s1 /\
+                     t_epoch t0 = match md with BUnreg => None | _ => Some (c_epoch s1) end) as [t0 [Hg0 [Hs0 He0]]].
+  { unfold step_state. cbn [cs_step]. rewrite Hnew. cbn [fst c_txs]. eexists. split; [apply tx_get_set_same|]. split; reflexivity. }
+  destruct (tx_stable_run post _ id t0 Hg0) as [t [Hg [Hs He]]]. exists t. split; [exact Hg|]. split; congruence.
+Qed.
+
+Theorem open_across_restore_refused : open_across_restore_refused_stmt fp G.
+Proof.
+  intros pre id md mid max post keys fail s1 s Hnew Hmd Hne.
+  destruct (begun_tx pre id md (mid ++ SRestore max :: post) Hnew) as [t [Hg [_ He]]]. fold s1 in He. fold s in Hg.
+  assert (t_epoch t = Some (c_epoch s1)) as He' by (destruct md; [exact He|exact He|congruence]).
+  assert (c_epoch s1 < c_epoch s) as Hlt.
+  { unfold s. rewrite run_app. cbn [run fold_left]. fold s1.
+    fold (run fp G (mid ++ SRestore max :: post) (step_state fp G s1 (SBegin id md))). rewrite run_app. cbn [run fold_left].
+    set (s2 := run fp G mid (step_state fp G s1 (SBegin id md))).
+    fold (run fp G post (step_state fp G s2 (SRestore max))).
+    pose proof (epoch_step s1 (SBegin id md)) as E1. cbn [is_restore] in E1.
+    destruct (epoch_run mid (step_state fp G s1 (SBegin id md))) as [E2 _]. fold s2 in E2.
+    pose proof (epoch_step s2 (SRestore max)) as E3. cbn [is_restore] in E3.
+    destruct (epoch_run post (step_state fp G s2 (SRestore max))) as [E4 _]. lia. }
+  destruct (t_closed t) eqn:Ecl.
+  - right. cbn [cs_step]. rewrite Hg, Ecl. reflexivity.
+  - left. apply (stale_epoch_refused s id keys fail t (c_epoch s1)); try assumption. lia.
+Qed.
+
+Lemma later_gen m ks : forall post s v, v <= c_visible s -> c_visible s < c_next s -> no_restore post ->
+  In (m, ks) (c_done (run fp G post s)) -> In (m, ks) (c_done s) \/ v < m.
+Proof.
+  induction post as [|c r IH]; intros s v Hle Hvn Hnr Hin; [left; exact Hin|]. cbn [run fold_left] in Hin.
+  assert (is_restore c = false) as Hc by (apply Hnr; left; reflexivity).
+  pose proof (vis_mono_step s c Hc) as Hm.
+  destruct (IH (step_state fp G s c) v ltac:(lia) (vinv_step s c Hvn)
+               (fun c' H => Hnr c' (or_intror H)) Hin) as [H|H]; [|right; exact H].
+  destruct (done_step_new _ _ _ _ H) as [H2|H2]; [left; exact H2|right; lia].
+Qed.
+
+Theorem no_lost_update_since_begin : no_lost_update_since_begin_stmt fp G.
+Proof.
+  intros pre id md post keys fail m ks k s1 s Hnew Hmd Ho Hin Hnot Hk.
+  destruct (begun_tx pre id md post Hnew) as [t [Hg [Hst He]]]. fold s1 in Hst, He. fold s in Hg.
+  assert (t_epoch t = Some (c_epoch s1)) as He' by (destruct md; [exact He|exact He|congruence]).
+  set (s1' := step_state fp G s1 (SBegin id md)).
+  assert (s = run fp G post s1') as Hs by (unfold s; rewrite run_app; reflexivity).
+  assert (c_visible s1' = c_visible s1 /\ c_done s1' = c_done s1 /\ c_next s1' = c_next s1 /\ c_epoch s1' = c_epoch s1)
+    as [Hv [Hd [Hn Hee]]].
+  { unfold s1', step_state. cbn [cs_step]. rewrite Hnew. cbn [fst c_visible c_done c_next c_epoch]. auto. }
+  (* an accepted commit is of the current epoch: no restore since T began *)
+  assert (no_restore post) as Hnr.
+  { pose proof Ho as Ho'. rewrite (commit_outcome _ _ _ _ _ Hg) in Ho'.
+    destruct (t_closed t); [discriminate|]. destruct keys as [|k0 kr]; [destruct Hk|].
+    destruct (match t_epoch t with Some e => ORACLE_EPOCH_CMP e (c_epoch s) | None => false end) eqn:Egd; [discriminate|].
+    apply epoch_test_false in Egd. unfold epoch_current in Egd. rewrite He' in Egd.
+    apply (proj2 (epoch_run post s1')). rewrite <- Hs. congruence. }
+  assert (c_visible s1 < c_next s1) as Hvn.
+  { apply vinv_run. cbn. rewrite first_seq. lia. }
+  rewrite Hs in Hin.
+  destruct (later_gen m ks post s1' (c_visible s1) ltac:(lia) ltac:(lia) Hnr Hin) as [H|H].
+  - exfalso. apply Hnot. rewrite <- Hd. exact H.
+  - rewrite <- Hs in Hin.
+    apply (no_lost_update_from_inv s id keys fail t m ks k); try assumption.
+    + apply (inv_run _ c0 inv_c0).
+    + lia.
 Qed.
 End Machine.
 
@@ -852,13 +1230,16 @@ Lemma lu_steps_refused :
   step_outcome toy_fp ORACLE_GC_INTERVAL (run toy_fp ORACLE_GC_INTERVAL lu_steps c0) (SCommit 3 [kA] false) = OConflict.
 Proof. vm_compute. reflexivity. Qed.
 
-(* Restore with an open transaction whose start is above the restored counter (finding C04-N1).
-   G+100 commits; T1 begins (start G+100); restore to 5 (visible := 5, kept_since := 5, counter of
-   publishes := 0); G-1 commits by fresh transactions; then T1 commits: it is the G-th publish
-   since the reset, the only registered transaction is T1 itself, so oldest_active =
-   min(T1.start, T1.start) = G+100 > kept_since: the GC body runs and sets kept_since := G+100
-   while visible = G+5.  From then on every transaction begins at visible < kept_since and is
-   answered Retry; nothing can commit, so visible never catches up. *)
+(* Restore with an open transaction whose start is above the restored counter (finding C04-N1,
+   repaired).  G+100 commits; T1 begins (start G+100); restore to 5 (visible := 5, kept_since := 5,
+   counter of publishes := 0); G-1 commits by fresh transactions; then T1 commits.
+   BEFORE the repair (run_old): it is the G-th publish since the reset, the only registered
+   transaction is T1 itself, so oldest_active = min(T1.start, T1.start) = G+100 > kept_since: the
+   GC body runs and sets kept_since := G+100 while visible = G+5.  From then on every transaction
+   begins at visible < kept_since and is answered Retry; nothing can commit, so visible never
+   catches up.
+   WITH the repair (run): T1 began in epoch 0, the restore made it 1: T1's commit is answered
+   Retry before the oracle is consulted; kept_since stays 5; the fresh transaction T2 is accepted. *)
 Fixpoint many (n : nat) (id : N) : list cstep :=
   match n with
   | O => []
@@ -867,18 +1248,68 @@ Fixpoint many (n : nat) (id : N) : list cstep :=
 Definition fr_steps : list cstep :=
   many (N.to_nat ORACLE_GC_INTERVAL + 100) 10 ++ [SBegin 1 BRW; SRestore 5] ++
   many (N.to_nat ORACLE_GC_INTERVAL - 1) 100000 ++ [SCommit 1 [kB] false; SBegin 2 BRW].
+Definition fr_state_old : cstate := Eval vm_compute in run_old toy_fp ORACLE_GC_INTERVAL fr_steps c0.
 Definition fr_state : cstate := Eval vm_compute in run toy_fp ORACLE_GC_INTERVAL fr_steps c0.
 Definition fr_tx : tx := Eval vm_compute in
-  match tx_get 2 (c_txs fr_state) with Some t => t | None => {| t_start := 0; t_reg := false; t_snap := false; t_closed := true |} end.
+  match tx_get 2 (c_txs fr_state_old) with
+  | Some t => t
+  | None => {| t_start := 0; t_reg := false; t_snap := false; t_closed := true; t_epoch := None |}
+  end.
+Lemma fr_state_old_eq : run_old toy_fp ORACLE_GC_INTERVAL fr_steps c0 = fr_state_old.
+Proof. vm_compute. reflexivity. Qed.
 Lemma fr_state_eq : run toy_fp ORACLE_GC_INTERVAL fr_steps c0 = fr_state.
 Proof. vm_compute. reflexivity. Qed.
 
-Theorem fresh_retry_after_restore_holds : fresh_retry_after_restore toy_fp ORACLE_GC_INTERVAL.
+Theorem fresh_retry_after_restore_old_holds : fresh_retry_after_restore_old toy_fp ORACLE_GC_INTERVAL.
 Proof.
-  exists fr_steps, 2, [kA], fr_tx. cbv zeta. rewrite fr_state_eq.
+  exists fr_steps, 2, [kA], fr_tx. cbv zeta. rewrite fr_state_old_eq, fr_state_eq.
   split; [vm_compute; reflexivity|]. split; [reflexivity|]. split; [reflexivity|].
-  split; [vm_compute; reflexivity|]. split; [vm_compute; reflexivity|]. vm_compute. reflexivity.
+  split; [vm_compute; reflexivity|]. split; [vm_compute; reflexivity|]. split; [vm_compute; reflexivity|].
+  split; [vm_compute; reflexivity|]. vm_compute. discriminate.
 Qed.
+
+(* the same history with an UNREGISTERED committer (the epoch-less entry, begin_epoch = None) next
+   to the registered stale transaction: nothing refuses it, oldest_active is the stale start
+   G+100, the clamp min(G+100, its own start G+100) does not help: kept_since > visible also on
+   the repaired machine *)
+Definition un_steps : list cstep :=
+  many (N.to_nat ORACLE_GC_INTERVAL + 100) 10 ++ [SBegin 1 BRW; SBegin 3 BUnreg; SRestore 5] ++
+  many (N.to_nat ORACLE_GC_INTERVAL - 1) 100000 ++ [SCommit 3 [kB] false].
+Theorem epochless_commit_unprotected_holds : epochless_commit_unprotected toy_fp ORACLE_GC_INTERVAL.
+Proof. exists un_steps. vm_compute. reflexivity. Qed.
+
+(* (a) of C04-N1, first witness: three commits; T1 begins (start 3); restore to 1; T2 begins and
+   commits kA (stamp 2); T1 commits kA.  Old machine: T1's check passes (kept_since 1 <= 3, stamp 2
+   is not above its start 3): both commit, T2's update is lost.  Repaired machine: Retry. *)
+Definition la_pre : list cstep := many 3 10.
+Definition la_post : list cstep := [SRestore 1; SBegin 2 BRW; SCommit 2 [kA] false].
+Theorem lost_update_across_restore_old_holds : lost_update_across_restore_old toy_fp ORACLE_GC_INTERVAL la_pre la_post 1.
+Proof.
+  exists [kA], 2, [kA], kA. cbv zeta.
+  split; [vm_compute; reflexivity|]. split; [vm_compute; reflexivity|]. split; [vm_compute; tauto|].
+  split; [vm_compute; intros [H|[H|[H|[]]]]; discriminate|]. split; [left; reflexivity|]. split; [left; reflexivity|].
+  vm_compute. reflexivity.
+Qed.
+
+(* second witness, the catch-up history: four commits; T1 begins (start 4); restore to 2; T2 begins
+   and commits kA (stamp 3); T3 begins and commits kB (stamp 4): the new timeline has reached T1's
+   start; T1 commits kA.  Old machine: accepted (stamp 3 is not above 4) — and a test
+   `start > visible` at the head of the critical section would accept it as well (4 > 4 is
+   false).  Repaired machine: T1 is of epoch 0, the store is in epoch 1: Retry. *)
+Definition cu_pre : list cstep := many 4 10.
+Definition cu_post : list cstep :=
+  [SRestore 2; SBegin 2 BRW; SCommit 2 [kA] false; SBegin 3 BRW; SCommit 3 [kB] false].
+Theorem lost_update_after_catchup_old_holds : lost_update_across_restore_old toy_fp ORACLE_GC_INTERVAL cu_pre cu_post 1.
+Proof.
+  exists [kA], 3, [kA], kA. cbv zeta.
+  split; [vm_compute; reflexivity|]. split; [vm_compute; reflexivity|]. split; [vm_compute; tauto|].
+  split; [vm_compute; intros [H|[H|[H|[H|[]]]]]; discriminate|]. split; [left; reflexivity|]. split; [left; reflexivity|].
+  vm_compute. reflexivity.
+Qed.
+Example cu_state_catches_up :
+  let s := run toy_fp ORACLE_GC_INTERVAL (cu_pre ++ SBegin 1 BRW :: cu_post) c0 in
+  c_visible s = 4 /\ (exists t, tx_get 1 (c_txs s) = Some t /\ t_start t = 4 /\ t_epoch t = Some 0) /\ c_epoch s = 1.
+Proof. vm_compute. split; [reflexivity|]. split; [eexists; split; [reflexivity|split; reflexivity]|reflexivity]. Qed.
 
 (* The undo kept in the map is ONE level deep.  It is sufficient for the commit pipeline because a
    second publisher of a key can only publish after its check passed, i.e. with start >= the first
